@@ -1,0 +1,3 @@
+// Package c05hooks re-exports internal packages for the verification harness
+// of property C05. It is empty unless built with the tag "verif".
+package c05hooks
